@@ -513,3 +513,55 @@ def run(rep: Report, prog: Program, tier: str) -> None:
             rep.fail(mk_finding(prog, PROP, "C12-MODEL", route_rtp, getattr(ex, "node", None), f"[{label}] raises {ex.name}", construct=f"router model raises {ex.name}"))
         except Unknown as ex:
             raise AnalysisError(f"C12-MODEL cannot evaluate [{label}]: {ex}")
+
+    # ---------------- C12-REGISTER: what the transport tells the router about a receiver / sender
+    rep.rule("C12-REGISTER", "the transport registers a receiver with the SSRCs of its encodings and the payload types of ALL its codecs (RTX included), a sender with its SSRC", min_instances=3)
+    reg_recv = prog.func("rtcdtlstransport.RTCDtlsTransport._register_rtp_receiver")
+    reg_send = prog.func("rtcdtlstransport.RTCDtlsTransport._register_rtp_sender")
+    seen_reg: List[Any] = []
+
+    def _rx(call, evl):
+        nm = unparse(call.func)
+        if nm.endswith("_rtp_router.register_receiver") or nm.endswith("_rtp_router.register_sender"):
+            seen_reg.append((nm.rsplit(".", 1)[-1], [evl.ev(a) for a in call.args], {k.arg: evl.ev(k.value) for k in call.keywords}))
+            return None
+        if nm.endswith("_rtp_header_extensions_map.configure"):
+            return None
+        return NotImplemented
+    rh = _mkh2(prog, _rx)
+    cod = lambda pt: SimpleNamespace(payloadType=pt)  # noqa: E731
+    for label, codecs, encodings in (("VP8 + RTX, one encoding", [96, 97], [(1000, 96)]), ("two codecs with RTX each, encoding of the first", [96, 97, 98, 99], [(1000, 96)]),
+                                     ("no a=ssrc lines in the remote description (no encodings)", [0, 8], [])):
+        del seen_reg[:]
+        params = SimpleNamespace(codecs=[cod(p) for p in codecs], encodings=[SimpleNamespace(ssrc=s_, payloadType=p_, rtx=None) for s_, p_ in encodings], muxId="m1", headerExtensions=[])
+        me = SimpleNamespace(__cls__=reg_recv.cls, _rtp_router=SimpleNamespace(), _rtp_header_extensions_map=SimpleNamespace())
+        try:
+            rh.run_method(reg_recv, me, ["RECV", params], {})
+        except Raised as ex:
+            rep.fail(mk_finding(prog, PROP, "C12-REGISTER", reg_recv, getattr(ex, "node", None), f"[{label}] raises {ex.name}", construct=f"register raises {ex.name}"))
+            continue
+        except Unknown as ex:
+            raise AnalysisError(f"C12-REGISTER cannot evaluate _register_rtp_receiver [{label}]: {ex}")
+        ok_ = False
+        if len(seen_reg) == 1 and seen_reg[0][0] == "register_receiver":
+            _, a_, k_ = seen_reg[0]
+            names_ = [p.arg for p in reg_r.pos_params][1:]
+            full = dict(zip(names_, a_))
+            full.update(k_)
+            ok_ = full.get("receiver") == "RECV" and sorted(full.get("ssrcs", [])) == sorted(s_ for s_, _ in encodings) and sorted(full.get("payload_types", [])) == sorted(codecs) and full.get("mid") == "m1"
+        if ok_:
+            rep.ok("C12-REGISTER", f"receiver: {label}", sample=str(seen_reg[0][2]))
+        else:
+            rep.fail(mk_finding(prog, PROP, "C12-REGISTER", reg_recv, reg_recv.node, f"[{label}] the router is told {seen_reg}; expected ssrcs {sorted(s_ for s_, _ in encodings)} and payload types {sorted(codecs)}: "
+                                "packets of a codec that is not listed (RTX, or everything when the remote description has no a=ssrc lines) reach no receiver", construct="receiver registration: payload types"))
+    del seen_reg[:]
+    me = SimpleNamespace(__cls__=reg_send.cls, _rtp_router=SimpleNamespace(), _rtp_header_extensions_map=SimpleNamespace())
+    try:
+        rh.run_method(reg_send, me, [SimpleNamespace(name="SENDER", _ssrc=4321, _rtx_ssrc=8765), SimpleNamespace(headerExtensions=[], codecs=[], muxId="m1")], {})
+    except (Raised, Unknown) as ex:
+        raise AnalysisError(f"C12-REGISTER cannot evaluate _register_rtp_sender: {ex}")
+    ok_ = len(seen_reg) == 1 and seen_reg[0][0] == "register_sender" and 4321 in (seen_reg[0][1] + list(seen_reg[0][2].values()))
+    if ok_:
+        rep.ok("C12-REGISTER", "sender registered under its SSRC", sample=str(seen_reg[0][2]))
+    else:
+        rep.fail(mk_finding(prog, PROP, "C12-REGISTER", reg_send, reg_send.node, f"the router is told {seen_reg}; expected the sender under SSRC 4321", construct="sender registration"))
